@@ -554,7 +554,8 @@ def _one_mutant(args):
 
 
 def run_mutants(pid, res, mutants, parts=("include", "src", "cmake", "CMakeLists.txt", "plugin"), jobs=6):
-    """mutants: dicts {id, edits: [(file, old, new[, count])], expect: (rule, construct substring) | None}.
+    """mutants: dicts {id, edits: [(file, old, new[, count])], expect: (rule, construct substring) | None,
+    fixes: [(rule, construct substring)] for controls that repair a reported finding}.
     Must-fire mutants have to add a report (rule, construct) the unmutated tree does not have; controls (expect None)
     have to reproduce the unmutated set of reports exactly.  A must-fire mutant the analyser refuses (exit 2) is
     fail-closed and accepted."""
@@ -585,13 +586,20 @@ def run_mutants(pid, res, mutants, parts=("include", "src", "cmake", "CMakeLists
             if rc == 2:
                 summary[mid] = "control-refused"
                 bad.append((mid, "control refused", tail))
-            elif got == base_new:
-                summary[mid] = "silent"
-                res.ok("SELFTEST", mid, {"status": "silent"})
             else:
-                summary[mid] = "control-fired"
-                bad.append((mid, "control changed the result",
-                            f"extra={sorted(got - base_new)[:4]} missing={sorted(base_new - got)[:4]}"))
+                # a control may be a *fix*: the listed (rule, construct substring) reports must disappear, nothing else
+                fixes = m.get("fixes", ())
+                want = {b for b in base_new if not any(b[0] == f[0] and f[1] in b[1] for f in fixes)}
+                if fixes and want == base_new:
+                    # the finding is listed as known or already fixed in the tree: nothing to remove
+                    want = base_new
+                if got == want:
+                    summary[mid] = "silent" if not fixes else "fixed"
+                    res.ok("SELFTEST", mid, {"status": summary[mid]})
+                else:
+                    summary[mid] = "control-fired"
+                    bad.append((mid, "control changed the result",
+                                f"extra={sorted(got - want)[:4]} missing={sorted(want - got)[:4]}"))
             continue
         if rc == 2:
             summary[mid] = "refused"
@@ -608,3 +616,57 @@ def run_mutants(pid, res, mutants, parts=("include", "src", "cmake", "CMakeLists
     if bad:
         raise AnalysisError("checker self-test failed: " + "; ".join(f"{m}: {s} [{d[:300]}]" for m, s, d in bad))
     return summary
+
+
+# ----------------------------------------------------------------------------------------------------------------
+# raw allocator references (C21), run per TU through engine.map_tus
+
+RAW_ALLOCATORS = ("malloc", "calloc", "realloc", "aligned_alloc", "posix_memalign", "strdup", "strndup", "valloc",
+                  "memalign", "reallocarray", "_aligned_malloc", "_aligned_realloc", "_strdup", "wcsdup", "asprintf",
+                  "vasprintf")
+_FUNC_KINDS = ("FunctionDecl", "CXXMethodDecl", "CXXConstructorDecl", "CXXDestructorDecl", "CXXConversionDecl")
+
+
+def raw_alloc_refs(unit, names=RAW_ALLOCATORS):
+    """[{file, func, line, name, how}] for every reference (call or address-taken) to a raw allocator in the
+    declarations of this TU that come from repository files."""
+    names = set(names)
+    out = []
+
+    def scan(n, file, func):
+        stack = [(n, file, func)]
+        while stack:
+            x, f, fn = stack.pop()
+            if not x:
+                continue
+            f = x.get("file") or f
+            k = x.get("k")
+            if k in _FUNC_KINDS and x.get("n"):
+                fn = x.get("n")
+            elif k == "VarDecl" and fn is None:
+                fn = f"<file-scope:{x.get('n')}>"
+            hit = None
+            if k == "DeclRefExpr":
+                r = x.get("ref") or {}
+                if r.get("k") in ("FunctionDecl", "UsingShadowDecl") and r.get("n") in names:
+                    hit = (r.get("n"), "ref")
+            elif k in ("UnresolvedLookupExpr", "DependentScopeDeclRefExpr", "CXXDependentScopeMemberExpr"):
+                nm = x.get("n") or (x.get("ref") or {}).get("n")
+                if nm in names:
+                    hit = (nm, "dependent")
+            if hit:
+                out.append({"file": f, "func": fn or "<file-scope>", "line": x.get("line"), "name": hit[0], "how": hit[1]})
+            c = x.get("i")
+            if c:
+                for y in c:
+                    stack.append((y, f, fn))
+    for d in unit.ir["decls"]:
+        scan(d, d.get("file") or d.get("nfile"), None)
+    # de-duplicate (a call has the DeclRefExpr once; templates may be visited through several instantiations)
+    seen, res = set(), []
+    for r in out:
+        k = (r["file"], r["func"], r["line"], r["name"])
+        if k not in seen:
+            seen.add(k)
+            res.append(r)
+    return res
